@@ -11,21 +11,7 @@ use crate::infra::stats::Stats;
 use crate::infra::tape::Tape;
 use crate::model::head::{Field, RespHead};
 
-fn classify(reason: &str) -> Option<usize> {
-    if reason.contains("1.0") {
-        Some(0)
-    } else if reason.contains("client") {
-        Some(1)
-    } else if reason.contains("server") {
-        Some(2)
-    } else if reason.contains("100") {
-        Some(3)
-    } else if reason.contains("delimited") {
-        Some(4)
-    } else {
-        None
-    }
-}
+use crate::drive::reasons::classify;
 
 /// Run one exchange to its terminal state(s) and check the verdict clauses.
 fn check_verdict(spec: &ExchangeSpec, s: &mut Sched, st: &mut Stats) -> Result<(), String> {
@@ -48,13 +34,16 @@ fn check_verdict(spec: &ExchangeSpec, s: &mut Sched, st: &mut Stats) -> Result<(
                 if let Ok(Some(nf)) = r.as_new_flow(ureq_proto::client::flow::RedirectAuthHeaders::Never) {
                     let m2 = nf.method().clone();
                     let nobody2 = no_body_clause(&m2, 200);
+                    // a request sent with send-body-despite-method and repeated by a 307/308: whether the followed flow remembers the
+                    // caller's wish is not stated; the caller states it again, so a body is due either way
+                    let carried_despite = spec.despite && !crate::drive::recv::needs_body(&spec.method) && matches!(spec.resp.head.status, 307 | 308);
                     let spec2 = ExchangeSpec {
                         method: m2,
                         req_v10: spec.req_v10,
                         uri: String::new(),
                         req_conn: spec.req_conn,
                         expect: spec.expect,
-                        despite: false,
+                        despite: carried_despite,
                         req_framing: ReqFraming::Auto,
                         extra_headers: vec![],
                         body: vec![],
